@@ -64,8 +64,12 @@ func (v *Voting[_, _]) outcomeIndex(numRequiredVotes int) (int, bool) {
 	for _, vote := range v.Votes {
 		numVotes[vote]++
 	}
-	for index, votes := range numVotes {
-		if votes >= numRequiredVotes {
+	// Scan the candidates in index order: iterating over the numVotes map would make the
+	// result depend on Go's randomized map iteration order whenever more than one candidate
+	// has enough votes, and replicas would diverge.
+	for index := range v.Candidates {
+		votes, ok := numVotes[index]
+		if ok && votes >= numRequiredVotes {
 			return index, true
 		}
 	}
